@@ -175,6 +175,29 @@ def _local_helper(call: ast.Call, fn):
 _SITE_FUNCS: list = []
 
 
+def _tables_snapshot() -> dict:
+    """Committed values of the few tables that fall back when the code leaves the shape they are read from."""
+    with open(os.path.join(os.path.dirname(os.path.abspath(__file__)), "tables_snapshot.json"), encoding="utf-8") as f:
+        return json.load(f)
+
+
+def _stream_read_in_subset(read_fn) -> bool:
+    """Is `StreamTransport.read` inside the subset of the stream translator (tools/translate.py: TrStream)?  Asked of
+    the translator itself, so that the table and the translation fall back together."""
+    sys.path.insert(0, os.path.dirname(os.path.abspath(__file__)))
+    try:
+        import translate as T  # noqa: PLC0415
+    except Exception:  # noqa: BLE001
+        return True
+    finally:
+        sys.path.pop(0)
+    try:
+        T.TrStream(read_fn, "read").block(T.fn_ast(read_fn).body)
+    except (T.Untranslatable, KeyError, TypeError, OSError, AttributeError, IndexError):
+        return False
+    return True
+
+
 def except_tuples(fn) -> list[list[str]]:
     """For every ``except`` clause (source order) and ``contextlib.suppress(...)``: the class names.  A clause that an
     extract-method refactoring moved into a private helper of the same class or module is found where the helper is
@@ -714,17 +737,29 @@ def extract(repo: str):
             out.append(name)
         return out
 
+    # The blocks say something only while `read` keeps the shape the stream translator understands (guards followed by
+    # top-level `try` statements): a clause that moved into a context manager or into a helper is invisible to this
+    # walk, and the table would then MISREPRESENT the code (the model would stop mapping OSError although the code
+    # still does).  Outside that shape the table is taken from its committed snapshot (tools/tables_snapshot.json) —
+    # exactly when tools/translate.py writes `read` from ITS snapshot, so `StreamBodiesEq.readClauses*_table` keeps
+    # comparing like with like — and `read` is tied by C17's correspondence run alone (DESIGN 13, false alarm 13).
+    read_fn = getattr(st.read, "__func__", st.read)
+    js["snapshot"] = []
     blocks = []
-    for node in fn_ast(getattr(st.read, "__func__", st.read)).body:
-        if isinstance(node, ast.Try):
-            block = []
-            for h in node.handlers:
-                cs = handler_classes(h)
-                for c in cs:
-                    if c not in PYEXN:
-                        raise ExtractError(f"excStreamReadBlocks: exception class {c} outside the vocabulary")
-                block.append((cs, raise_name(h)))
-            blocks.append(block)
+    if _stream_read_in_subset(read_fn):
+        for node in fn_ast(read_fn).body:
+            if isinstance(node, ast.Try):
+                block = []
+                for h in node.handlers:
+                    cs = handler_classes(h)
+                    for c in cs:
+                        if c not in PYEXN:
+                            raise ExtractError(f"excStreamReadBlocks: exception class {c} outside the vocabulary")
+                    block.append((cs, raise_name(h)))
+                blocks.append(block)
+    else:
+        blocks = [[(list(cs), nm) for cs, nm in b] for b in _tables_snapshot()["excStreamReadBlocks"]]
+        js["snapshot"].append("excStreamReadBlocks")
     emit("def excStreamReadBlocks : List (List (List PyExn × String)) := " + lean_list(
         [lean_list(["(" + lean_list([f".{c}" for c in cs]) + ", " + lean_str(nm) + ")" for cs, nm in b]) for b in blocks]))
     js["except"]["excStreamReadBlocks"] = [[[cs, nm] for cs, nm in b] for b in blocks]
@@ -874,6 +909,8 @@ def main() -> int:
     ap.add_argument("--repo", default="/repo")
     ap.add_argument("--out", required=True)
     ap.add_argument("--json", required=True)
+    ap.add_argument("--update-snapshot", action="store_true",
+                    help="rewrite tools/tables_snapshot.json from this tree (together with translate.py --update-snapshot)")
     args = ap.parse_args()
     try:
         lines, js = extract(args.repo)
@@ -897,7 +934,12 @@ def main() -> int:
     with open(args.json + ".tmp", "w", encoding="utf-8") as f:
         json.dump(js, f, indent=1, sort_keys=True)
     os.replace(args.json + ".tmp", args.json)
-    print(f"EXTRACT-OK changed={'yes' if changed else 'no'} sha={hashlib.sha1(text.encode()).hexdigest()[:12]}")
+    snap = js.get("snapshot") or []
+    if args.update_snapshot and not snap:
+        with open(os.path.join(os.path.dirname(os.path.abspath(__file__)), "tables_snapshot.json"), "w", encoding="utf-8") as f:
+            json.dump({"excStreamReadBlocks": js["except"]["excStreamReadBlocks"]}, f, indent=1)
+    print(f"EXTRACT-OK changed={'yes' if changed else 'no'} sha={hashlib.sha1(text.encode()).hexdigest()[:12]}"
+          + (f" snapshot={','.join(snap)}" if snap else ""))
     return 0
 
 
